@@ -8,14 +8,15 @@
 (*     the real run, so no cache machine is needed here; only the abstract *)
 (*     state of the core is carried, to prune pointless operations).       *)
 (*                                                                         *)
-(*  ChkInit/ChkNext  - design level: run a cache MACHINE (Variant "ideal": *)
-(*     unconstrained eviction, lazy or eager expiry; Variant "asis": the   *)
-(*     current code's eviction sizing and lazy index) and check that the   *)
-(*     judge of PART 1/2 accepts every step (JudgeAccepts), that the       *)
+(*  ChkInit/ChkNext  - design level: run a cache MACHINE and check that    *)
+(*     the judge of PART 1/2 accepts every step (JudgeAccepts), that the   *)
 (*     limits hold (InvEntry, InvBytes) and that the books are right at    *)
-(*     every probe (InvBooks).  All hold on "ideal".  On "asis" TLC        *)
-(*     refutes them; the W* invariants print the refuting program as a     *)
-(*     WITNESS, which the check replays on the real code.                  *)
+(*     every probe (InvBooks).  Variant "ideal": unconstrained eviction,   *)
+(*     lazy or eager expiry.  Variant "asis": the code's shape with the    *)
+(*     defects of the findings in AsIs switched on.  Everything holds on   *)
+(*     "ideal" and on "asis" with AsIs = {}; with a finding in AsIs TLC    *)
+(*     refutes an invariant and the W* invariants print the refuting       *)
+(*     program as a WITNESS, which the check replays on the real code.     *)
 (***************************************************************************)
 EXTENDS Cache, TLC, Json
 
@@ -28,7 +29,8 @@ CONSTANTS Keys,        \* model values (a SYMMETRY set for ChkNext)
           ShortSizes,  \* value sizes for put_ttl short
           LongSizes,   \* value sizes for put_ttl long
           MaxRestarts, MaxTicks,
-          Variant      \* "ideal" | "asis"  (ChkNext only)
+          Variant,     \* "ideal" | "asis"  (ChkNext only)
+          AsIs         \* findings whose defect the as-is machine reproduces (subset of {"F10a","F10b","F10c","F10d"})
 
 VARIABLES cfg, m, hist, last
 
@@ -87,7 +89,7 @@ GenNext ==
 Emit == (Len(hist) >= 1 /\ Len(hist) <= D) => PrintT(<<"PROGRAM", ToJson(Program)>>)
 
 \* ---- design level: the machines ------------------------------------------------
-Step(e)  == IF Variant = "ideal" THEN IdealStep(m, cfg, Exec(e), Keys) ELSE AsIsStep(m, cfg, Exec(e), Keys)
+Step(e)  == IF Variant = "ideal" THEN IdealStep(m, cfg, Exec(e), Keys) ELSE AsIsStep(m, cfg, Exec(e), Keys, AsIs)
 Obs(mm)  == IF Variant = "ideal" THEN IdealObs(mm) ELSE AsIsObs(mm)
 ChkInit == GenInit
 ChkNext ==
